@@ -828,8 +828,11 @@ pub fn lane_env(seed: u64) -> Vec<Scenario> {
     for (oname, plans, faults) in outcome_plans() {
         for dirmode in ["tmp", "work", "keep"] {
             for fmt in ["md", "cram", "md-compat"] {
-                for layout in ["one", "two-same-name", "three-same-name", "blank-vs-underscore", "prepend", "doc-timeout"] {
+                for layout in ["one", "two-same-name", "three-same-name", "blank-vs-underscore", "prepend", "doc-timeout", "long-document"] {
                     let script = fmt != "md";
+                    if layout == "long-document" && (fmt != "md" || dirmode != "tmp") {
+                        continue;
+                    }
                     if script && plans.iter().any(|p| p.cfg != TestCfg::default() || p.fate == Fate::Detached) {
                         continue;
                     }
@@ -846,6 +849,15 @@ pub fn lane_env(seed: u64) -> Vec<Scenario> {
                     let mut docs = vec![];
                     match layout {
                         "one" => docs.push(mk_doc(&mut g, &mut sim, &format!("suite/case.{}", ext), &plans)),
+                        "long-document" => {
+                            // test cases beyond line 65 536 and beyond line 131 072
+                            let mut d = mk_doc(&mut g, &mut sim, &format!("suite/long.{}", ext), &plans);
+                            d.pad_lines = 66_000;
+                            docs.push(d);
+                            let mut d2 = mk_doc(&mut g, &mut sim, &format!("suite/longer.{}", ext), &[Plan::new(Fate::Pass), Plan::new(Fate::Pass)]);
+                            d2.pad_lines = 131_100;
+                            docs.push(d2);
+                        }
                         "two-same-name" => {
                             docs.push(mk_doc(&mut g, &mut sim, &format!("x/case.{}", ext), &plans));
                             docs.push(mk_doc(&mut g, &mut sim, &format!("y/case.{}", ext), &[Plan::new(Fate::Pass), Plan::new(Fate::Pass)]));
@@ -2101,6 +2113,58 @@ pub fn lane_flood(seed: u64) -> Vec<Scenario> {
     }
     // more than one read round (1 MiB) arrives late, then silence: the limit counts from the
     // start of the command, not from the last round that was read
+    // a read round (1 MiB) is filled by BOTH streams together - neither alone reaches the size
+    // of a round -, then a pause, then a little more: what comes after the round belongs to
+    // the output as well
+    for tier in [Tier::Lib, Tier::Cli] {
+        for (err_kib, out_kib, tail_fd) in [(976u64, 48u64, 1u8), (600, 600, 1), (48, 976, 2), (512, 512, 2), (1000, 1000, 1)] {
+            let mut sim = base_sim(g.rng.next_u64());
+            sim.swarm.spawn_latency_max_ns = 1;
+            let mut tests = vec![];
+            for k in 0..3 {
+                let mut t = g.test(&Plan::new(Fate::Pass), &mut sim.programs);
+                if k == 1 {
+                    let unit_o: Vec<u8> = format!("o{}\n", &t.nonce[..6]).repeat(128).into_bytes();
+                    let unit_e: Vec<u8> = format!("e{}\n", &t.nonce[..6]).repeat(128).into_bytes();
+                    sim.programs.insert(
+                        t.nonce.clone(),
+                        vec![
+                            Op::OutRepeat { fd: 2, unit: Bytes(unit_e), times: err_kib },
+                            Op::OutRepeat { fd: 1, unit: Bytes(unit_o), times: out_kib },
+                            Op::Sleep { ns: 2 * SEC },
+                            Op::Out { fd: tail_fd, data: Bytes(format!("tail-{}\n", &t.nonce[..6]).into_bytes()) },
+                            Op::Sleep { ns: SEC },
+                            Op::Status { code: 0 },
+                        ],
+                    );
+                    // the stream that is judged is the small one, where there is one: its
+                    // expectations are written out, the line after the pause included
+                    if err_kib > 100 && out_kib > 100 {
+                        t.expectations = vec![];
+                        t.expect_match = false;
+                    } else if out_kib > 100 {
+                        t.cfg.output_stream = Some(Stream::Stderr);
+                    }
+                }
+                tests.push(t);
+            }
+            let d = doc("both.md", Format::Md, tests);
+            let mut sc = Scenario {
+                lane: format!("flood/{:?}/round-filled-by-both/{}KiB-err-{}KiB-out/tail-fd{}", tier, err_kib, out_kib, tail_fd),
+                tier,
+                script_mode: false,
+                docs: vec![d],
+                cli: Cli::default(),
+                sim,
+                pretty: false,
+                check: vec!["C05".into(), "C13".into(), "C14".into(), "C20".into()],
+                partner: None,
+                turns: None,
+            };
+            fill_expectations(&mut sc, &mut g);
+            out.push(sc);
+        }
+    }
     for tier in [Tier::Lib, Tier::Cli] {
         for limit in ["test", "document"] {
             for (burst_at, kib) in [(4 * SEC, 1200u64), (4 * SEC, 500), (5900 * MS, 2200), (100 * MS, 1025)] {
